@@ -30,9 +30,15 @@ theorem tryInit_ok_facts (H : Bytes → Bytes) (features : List Nat) (read : Nat
     configAccepted a.config = true ∧
     (∀ i ∈ a.sourceOrder, i < a.chunks.length) ∧
     (∀ d ∈ a.chunks, 1 ≤ d.archiveSize ∧ d.archiveOffset + d.archiveSize ≤ usizeMax ∧ d.checksum.length ≤ 64) ∧
-    a.headerChecksum.length ≤ 64 := by
+    a.headerChecksum.length ≤ 64 ∧
+    (1 ≤ a.hashLength ∧ a.hashLength ≤ 64) ∧
+    (a.sourceOrder.map fun i => ((a.chunks[i]?).map (·.sourceSize)).getD 0).sum = a.sourceTotalSize := by
   obtain ⟨pre, rest, dict, params, cc, compr, cfg, w, rfl⟩ := tryInit_ok_inv h
-  refine ⟨configFromParams_ok w.hcfg, ?_, ?_, ?_⟩
+  refine ⟨configFromParams_ok w.hcfg, ?_, ?_, ?_, w.hhash, ?_⟩
+  rotate_left 3
+  · simp only [tiArchive]
+    rw [tiSum_map _ _ (fun _ => rfl)]
+    exact w.hsum
   · intro i hi
     simpa [tiArchive] using w.hord i hi
   · intro d hd
@@ -50,7 +56,7 @@ construction of the source index reach no panic branch. -/
 theorem accepted_banner_safe (H : Bytes → Bytes) (features : List Nat) (read : Nat → Nat → Option Bytes)
     (a : Archive) (h : tryInit H features read = .ok a) :
     (∃ r, a.banner = .ok r) ∧ (∃ cs, a.sourceChunks = some cs) ∧ (∃ ix, a.sourceIndex = some ix) := by
-  obtain ⟨hcfg, hord, -, -⟩ := tryInit_ok_facts H features read a h
+  obtain ⟨hcfg, hord, -, -, -, -⟩ := tryInit_ok_facts H features read a h
   have hsc : ∃ cs, a.sourceChunks = some cs := sourceChunks_some a hord
   refine ⟨?_, hsc, ?_⟩
   · unfold Archive.banner
@@ -145,6 +151,9 @@ theorem bh_tiOk (H : Bytes → Bytes) (hH : ∀ x, (H x).length = 64) (features 
     (hp : d.chunkerParams = some p) (hc : d.chunkCompression = some c)
     (hcfg : configFromParams p = .ok cfg) (hcompr : compressionFromDict features c = .ok compr)
     (hord : ∀ i ∈ d.rebuildOrder, i < d.chunkDescriptors.length)
+    (hhash : 1 ≤ p.chunkHashLength ∧ p.chunkHashLength ≤ 64)
+    (hsum : (d.rebuildOrder.map fun i => ((d.chunkDescriptors[i]?).map (·.sourceSize)).getD 0).sum =
+      d.sourceTotalSize)
     (hsz : ∀ cd ∈ d.chunkDescriptors, 1 ≤ cd.archiveSize)
     (hoff : ∀ cd ∈ d.chunkDescriptors, (buildHeader H d none).length + cd.archiveOffset + cd.archiveSize ≤ usizeMax)
     (hlen : (encodeDictionary d).length + 86 ≤ usizeMax) :
@@ -157,7 +166,7 @@ theorem bh_tiOk (H : Bytes → Bytes) (hH : ∀ x, (H x).length = 64) (features 
     simp [bhRest, le64_length, hH]
   have hbytes : buildHeader H d none ++ data = bhPre d ++ (bhRest H d ++ data) := by
     rw [buildHeader_eq, List.append_assoc]
-  refine ⟨?_, ?_, ?_, ?_, ?_, ?_, ?_, ?_, ?_, ?_, hp, hord, hc, hcompr, hcfg⟩
+  refine ⟨?_, ?_, ?_, ?_, by rw [hds, hps]; omega, ?_, ?_, ?_, ?_, ?_, ?_, hp, hhash, hord, hsum, hc, hcompr, hcfg⟩
   · unfold honestReadAt slice
     rw [if_pos (by rw [hbytes]; simp [bhPre_length, hps]), hbytes, List.drop_zero,
       List.take_left' (by rw [bhPre_length, hps])]
@@ -190,6 +199,9 @@ theorem tryInit_buildHeader (H : Bytes → Bytes) (hH : ∀ x, (H x).length = 64
     (hp : d.chunkerParams = some p) (hc : d.chunkCompression = some c)
     (hcfg : configFromParams p = .ok cfg) (hcompr : compressionFromDict features c = .ok compr)
     (hord : ∀ i ∈ d.rebuildOrder, i < d.chunkDescriptors.length)
+    (hhash : 1 ≤ p.chunkHashLength ∧ p.chunkHashLength ≤ 64)
+    (hsum : (d.rebuildOrder.map fun i => ((d.chunkDescriptors[i]?).map (·.sourceSize)).getD 0).sum =
+      d.sourceTotalSize)
     (hsz : ∀ cd ∈ d.chunkDescriptors, 1 ≤ cd.archiveSize)
     (hoff : ∀ cd ∈ d.chunkDescriptors, (buildHeader H d none).length + cd.archiveOffset + cd.archiveSize ≤ usizeMax)
     (hlen : (encodeDictionary d).length + 86 ≤ usizeMax) :
@@ -203,7 +215,7 @@ theorem tryInit_buildHeader (H : Bytes → Bytes) (hH : ∀ x, (H x).length = 64
       a.chunkDataOffset = (buildHeader H d none).length ∧
       a.chunks = d.chunkDescriptors.map (fun cd =>
         ⟨hashTruncate cd.checksum 64, cd.archiveSize, (buildHeader H d none).length + cd.archiveOffset, cd.sourceSize⟩) := by
-  have w := bh_tiOk H hH features d hwf data p c cfg compr hp hc hcfg hcompr hord hsz hoff hlen
+  have w := bh_tiOk H hH features d hwf data p c cfg compr hp hc hcfg hcompr hord hhash hsum hsz hoff hlen
   have hu : usizeMax = 2 ^ 64 - 1 := rfl
   have hcdo := bh_cdo H d (by omega)
   have hbl := buildHeader_length H hH d
